@@ -31,6 +31,10 @@ from ..core import guarded, MachineryError
 from ..par import Pool
 from ..project import fx
 
+# per-call alarm of the library calls: generous (normal calls take < 10 s) - a slow or loaded machine must never
+# turn into a verdict; a genuine hang is still reported (as the event's err) after this time
+CALL_TIMEOUT = 900
+
 RULE = ('scenario = one mesh x one element x one model problem (polynomial exact solution, Dirichlet/Neumann split) '
         'or one projection; distinct = distinct recipe; non-trivial = at least one interior DOF and (for solves) '
         'polynomial degree = element degree')
@@ -219,7 +223,7 @@ def exec_solve(rec):
             natural = LinearForm(lambda v, w: sum(p_eval(gradP[i], w.x) * w.n[i] for i in range(dim)) * v)
             exact = lambda x: p_eval(P, x)
         return m, e, basis, A, b0, natural, exact
-    sysm, err = guarded(assemble, 120)
+    sysm, err = guarded(assemble, CALL_TIMEOUT)
     if err:
         ev = base(splits[0])
         # NotImplementedError = the library explicitly declines (e.g. no quadrature rule of the requested order):
@@ -302,7 +306,7 @@ def exec_solve(rec):
             else:
                 xD = FacetBasis(m, e, facets=Dfac).project(exact)           # boundary projection of the data
             return np.asarray(solve(*reduce_(A, b, x=xD, **kw))), len(D.flatten())
-        out, err = guarded(run, 120)
+        out, err = guarded(run, CALL_TIMEOUT)
         if err:
             ev['err'] = err
         elif not lattice_ok:
@@ -347,7 +351,7 @@ def exec_project(rec):
             y1 = fb.project(fb.interpolate(y0))
             I = basis.get_dofs(F).flatten()
         return y0, np.asarray(y1), np.asarray(I), edofs, cells
-    out, err = guarded(run, 120)
+    out, err = guarded(run, CALL_TIMEOUT)
     if err:
         ev['err'] = 'NotSupported' if err == 'NotImplementedError' else err
         return [ev]
